@@ -19,10 +19,16 @@
 
    Hypothesis `hist_ok` (decidable, evaluated statement by statement in the store the statement
    runs on; see C02_nonvacuous / C02_hyp_* below):
-   (H1) `stmt_atomic`: a statement that returns an error changed no page. This EXCLUDES the recorded
-        findings F11a-c (property C14): a multi-row INSERT / UPDATE, or a CREATE TABLE, failing after
-        its first row keeps the earlier rows in the cache without logging them - after a crash they
-        are gone (C02_needs_atomicity shows the theorem is false without H1).
+   (H1) `stmt_atomic`: a statement that returns an error changed no page. Before the repair of the
+        recorded findings F11a-c (property C14) this excluded real behaviour: a multi-row INSERT /
+        UPDATE, or a CREATE TABLE, failing after its first row kept the earlier rows in the cache
+        without logging them - after a crash they were gone. Since the repair (every row / catalog
+        row is checked before the first change) (H1) is NO LONGER ASSUMED for histories of
+        statements, flushes and crash-restarts: section F derives it from the refinement invariant
+        (Proofs/FailsEarly.v stmt_err_unchanged, Proofs/HistNoH1.v rep_stmt_atomic) and restates the
+        main theorems under the boolean `hist_ok2` = literals are Go values + allocation frontier
+        <= 2^63 only (no H1, no H2): the `_noH1H2` theorems. C02_former_atomicity_witness: the
+        history that used to show (H1) necessary now recovers to what SELECT showed.
    (H2) `stmt_moves_ok`: whenever an INSERT moves the root of its table, the sys_pages row that
         updatePageTable rewrites (found by table name) is the first live sys_pages row holding the
         old root offset - the row redoRootMove rewrites during replay. True as long as no two live
@@ -239,19 +245,21 @@ Proof.
   eexists. split; [vm_compute; reflexivity|]. split; vm_compute; reflexivity.
 Qed.
 
-(* (H1) is necessary: F11a (a 2-row INSERT whose second row is out of range keeps row 1 in the
-   cache, unlogged) followed by a crash loses the row that SELECT showed before the crash *)
+(* the history that used to show (H1) necessary - F11a: a 2-row INSERT whose second row is out of
+   range kept row 1 in the cache, unlogged, and a crash lost the row SELECT had shown - now
+   recovers to exactly what SELECT showed before the crash (the failing INSERT stored nothing) *)
 Definition ex_f11 : list event :=
   [EvStmt (SCreateTable "t" [mkColDef "a" STNumeric]);
    EvStmt (SInsert "t" [] [[VInt 1]; [VInt 2147483648]])].
 
-Example C02_needs_atomicity :
+Example C02_former_atomicity_witness :
   exists y os y', run_events init_sys ex_f11 = (SOk y, os) /\ only_c02_events ex_f11 /\
-                  recover y = Ok y' /\ abs (mem y') <> abs (mem y).
+                  os = [Some (OOk 0); Some (OErr EIntRange)] /\
+                  recover y = Ok y' /\ abs (mem y') = abs (mem y).
 Proof.
   destruct (run_events init_sys ex_f11) as [fin os] eqn:E.
   vm_compute in E. inversion E; subst. eexists _, _, _. split; [reflexivity|].
-  split; [repeat constructor|]. split; [vm_compute; reflexivity|]. vm_compute. discriminate.
+  split; [repeat constructor|]. split; [reflexivity|]. split; [vm_compute; reflexivity|]. vm_compute. reflexivity.
 Qed.
 
 (* ---- E. the same theorems WITHOUT (H2) ----
@@ -364,4 +372,123 @@ Proof.
   vm_compute in E0. vm_compute in E1. inversion E0; subst. inversion E1; subst.
   eexists _, _, _, _. split; [reflexivity|]. split; [reflexivity|].
   split; [apply hist_ok1b_sound; vm_compute; reflexivity|]. vm_compute. discriminate.
+Qed.
+
+
+(* ---- F. the same theorems WITHOUT (H1) and WITHOUT (H2) ----
+   (H1) is derived from the refinement invariant as well (Proofs/FailsEarly.v: under `Rep s d` a
+   statement that returns an error returns the store it was given, because EvaluateInsert /
+   EvaluateUpdate / createTable check every row / catalog row before the first change and nothing
+   can fail afterwards; Proofs/HistNoH1.v: `rep_stmt_atomic`). `hist_ok2` is a BOOLEAN on the
+   history, per statement: RefineMain.stmt_ok (literals are Go values) and the allocation frontier
+   after the statement is <= OFFMAX = 2^63; events: statements - successful or failing in ANY way -,
+   flushes, crash-restarts. hist_ok2 -> hist_ok1 -> hist_ok. *)
+From Mkdb Require Import Proofs.FailsEarly Proofs.HistNoH1.
+
+(* (H1) in one store *)
+Theorem C02_atomic_from_rep : forall s d st,
+  Rep s d -> RefineMain.stmt_ok st = true -> nextFree (e_store (run_stmt s st)) <= OFFMAX ->
+  stmt_atomic s st.
+Proof. exact rep_stmt_atomic. Qed.
+Print Assumptions C02_atomic_from_rep.
+
+Theorem C02_hyp_without_H1_H2 : forall evs, hist_ok2 init_sys evs = true -> hist_ok1 init_sys evs.
+Proof. exact hist_ok2_sound. Qed.
+Print Assumptions C02_hyp_without_H1_H2.
+
+Theorem C02_rep_along_history_noH1H2 : forall evs y os,
+  hist_ok2 init_sys evs = true -> run_events init_sys evs = (SOk y, os) ->
+  SelfOk (mem y) /\ exists d, Rep (mem y) d.
+Proof. exact hist_ok2_rep. Qed.
+Print Assumptions C02_rep_along_history_noH1H2.
+
+Theorem C02_recovery_restores_noH1H2 : forall evs y os,
+  hist_ok2 init_sys evs = true -> run_events init_sys evs = (SOk y, os) ->
+  exists y', recover y = Ok y' /\ seq (mem y') (mem y) /\ abs (mem y') = abs (mem y) /\
+             disk y' = mem y' /\ wal y' = wal y.
+Proof. intros evs y os H R. exact (C02_recovery_restores_noH2 evs y os (hist_ok2_sound evs H) R). Qed.
+Print Assumptions C02_recovery_restores_noH1H2.
+
+Theorem C02_recover_idempotent_noH1H2 : forall evs y os y1,
+  hist_ok2 init_sys evs = true -> run_events init_sys evs = (SOk y, os) ->
+  recover y = Ok y1 -> recover y1 = Ok y1.
+Proof. intros evs y os y1 H R. exact (C02_recover_idempotent_noH2 evs y os y1 (hist_ok2_sound evs H) R). Qed.
+Print Assumptions C02_recover_idempotent_noH1H2.
+
+Theorem C02_ids_never_reused_noH1H2 : forall evs y os y1,
+  hist_ok2 init_sys evs = true -> run_events init_sys evs = (SOk y, os) -> recover y = Ok y1 ->
+  Forall (fun t => Forall (fun k => k <= lastKey (mem y1)) (tree_keys t)) (forest (mem y1)) /\
+  Forall (fun t => Forall (fun n => t_lsn n < nextLSN (mem y1)) (nodes t)) (forest (mem y1)).
+Proof. intros evs y os y1 H R. exact (C02_ids_never_reused_noH2 evs y os y1 (hist_ok2_sound evs H) R). Qed.
+Print Assumptions C02_ids_never_reused_noH1H2.
+
+(* the recovered system is again reached by a history satisfying the hypothesis *)
+Theorem C02_crash_cycles_noH1H2 : forall evs y os,
+  hist_ok2 init_sys evs = true -> run_events init_sys evs = (SOk y, os) ->
+  exists y1 os1, run_events init_sys (evs ++ [EvCrash]) = (SOk y1, os1) /\
+                 hist_ok2 init_sys (evs ++ [EvCrash]) = true /\ recover y = Ok y1.
+Proof.
+  intros evs y os H R.
+  destruct (C02_crash_cycles_noH2 evs y os (hist_ok2_sound evs H) R) as (y1 & os1 & A & _ & C).
+  exists y1, os1. split; [exact A|]. split; [exact (hist_ok2_snoc evs init_sys y os EvCrash H R eq_refl) | exact C].
+Qed.
+Print Assumptions C02_crash_cycles_noH1H2.
+
+Theorem C02_later_statements_partial_noH1H2 : forall evs y os y' sts,
+  hist_ok2 init_sys evs = true -> run_events init_sys evs = (SOk y, os) -> recover y = Ok y' ->
+  lastKey (mem y') = lastKey (mem y) -> nextLSN (mem y') = nextLSN (mem y) ->
+  snd (run_stmts (mem y') sts) = snd (run_stmts (mem y) sts) /\
+  abs (fst (run_stmts (mem y') sts)) = abs (fst (run_stmts (mem y) sts)) /\
+  seq (fst (run_stmts (mem y') sts)) (fst (run_stmts (mem y) sts)).
+Proof. intros evs y os y' sts H. exact (C02_later_statements_partial_noH2 evs y os y' sts (hist_ok2_sound evs H)). Qed.
+Print Assumptions C02_later_statements_partial_noH1H2.
+
+Theorem C02_clean_shutdown_noH1H2 : forall evs y os,
+  hist_ok2 init_sys evs = true -> run_events init_sys evs = (SOk y, os) -> recover (do_flush y) = Ok (do_flush y).
+Proof. intros evs y os H. exact (C02_clean_shutdown_noH2 evs y os (hist_ok2_sound evs H)). Qed.
+Print Assumptions C02_clean_shutdown_noH1H2.
+
+Theorem C02_recovery_total_noH1H2 : forall evs y os,
+  hist_ok2 init_sys evs = true -> run_events init_sys evs = (SOk y, os) ->
+  exists y1, step y EvCrash = (SOk y1, None).
+Proof. intros evs y os H. exact (C02_recovery_total_noH2 evs y os (hist_ok2_sound evs H)). Qed.
+Print Assumptions C02_recovery_total_noH1H2.
+
+(* ---- non-vacuity: ex_history satisfies hist_ok2, and so does a history with a FAILING multi-row
+   INSERT (second row out of INT range), a failing multi-row UPDATE (the second matching row would
+   exceed 400 bytes) and a failing CREATE TABLE (second column VARCHAR(3000000000)) - which the
+   boolean with (H1) as fails_early, hist_ok1b, rejects -, a flush and crash-restarts in between;
+   after the last crash the table reads as before it ---- *)
+Example C02_noH1H2_nonvacuous : hist_ok2 init_sys ex_history = true.
+Proof. vm_compute. reflexivity. Qed.
+
+Fixpoint rep_x (n : nat) : string := match n with O => "" | S k => String "x" (rep_x k) end.
+
+Definition ex_late : list event :=
+  [EvStmt (SCreateTable "t" [mkColDef "a" STNumeric; mkColDef "b" (STVarchar 400); mkColDef "c" (STVarchar 400)]);
+   EvStmt (SInsert "t" [] [[VInt 1; VStr "x"; VStr "y"]; [VInt 2; VStr "x"; VStr (rep_x 300)]]);
+   EvStmt (SInsert "t" [] [[VInt 3; VStr "p"; VStr "q"]; [VInt 2147483648; VStr "p"; VStr "q"]]);
+   EvCrash;
+   EvStmt (SUpdate "t" [("b", XLit (VStr (rep_x 200)))] None);
+   EvFlush;
+   EvStmt (SCreateTable "u" [mkColDef "a" STNumeric; mkColDef "b" (STVarchar 3000000000)]);
+   EvStmt (SUpdate "t" [("b", XLit (VStr "z"))] None);
+   EvCrash].
+
+Example C02_noH1H2_late_failures :
+  hist_ok2 init_sys ex_late = true /\ hist_ok1b init_sys ex_late = false /\
+  match run_events init_sys ex_late with
+  | (SOk y, os) =>
+      os = [Some (OOk 0); Some (OOk 2); Some (OErr EIntRange); None; Some (OErr ERowTooLarge); None;
+            Some (OErr EIntRange); Some (OOk 1); None] /\
+      (match st_fetch (mem y) "t" with
+       | Ok (rows, _) => map (fun r => (fst r, firstn 2 (snd r))) rows
+       | _ => []
+       end) = [(13%N, [VInt 1; VStr "z"]); (14%N, [VInt 2; VStr "z"])] /\
+      st_fetch (mem y) "u" = Err ETableNotExist
+  | _ => False
+  end.
+Proof.
+  split; [vm_compute; reflexivity|]. split; [vm_compute; reflexivity|].
+  vm_compute. split; [reflexivity|]. split; reflexivity.
 Qed.
